@@ -24,6 +24,7 @@ class Spec:
         self.container = None
         self.header = None
         self.props = []
+        self.canon = None
         self.funcs = {}
         self.order = []
 
@@ -36,7 +37,7 @@ def parse(path):
         if not line or line.startswith('#'):
             continue
         if cur is None:
-            m = re.match(r'^(container|header|props)\s+(.*)$', line)
+            m = re.match(r'^(container|header|props|canon)\s+(.*)$', line)
             if m:
                 if m.group(1) == 'props':
                     sp.props = m.group(2).split()
@@ -80,7 +81,7 @@ def expand(expr):
     return expr
 
 
-def insert_contracts(csrc, spec, extra_includes):
+def insert_contracts(csrc, spec, extra_includes, extra_requires=None):
     """replace /*@CONTRACT fn@*/ markers; returns (text, linemap) where linemap maps line number of
     the produced file -> (function, clause)"""
     out = []
@@ -102,6 +103,8 @@ def insert_contracts(csrc, spec, extra_includes):
             if c.kind == 'requires':
                 out.append('__CPROVER_requires(%s)' % expand(c.expr))
                 linemap[len(out)] = (fn, c)
+        for x in (extra_requires or {}).get(fn, []):
+            out.append('__CPROVER_requires(%s)' % expand(x))
         out.append('__CPROVER_assigns(__CPROVER_object_whole(self)%s)' % (''.join(', ' + a for a in fs.opts.get('assigns', '').split(';') if a.strip())))
         for c in fs.clauses:
             if c.kind == 'ensures':
